@@ -7,35 +7,14 @@ const char *vf_str0;
 size_t vf_len;
 #include "util/atoi.c"
 
+#include "atoi_impl.h"
 static int atoi_impl(const char *str, ABT_bool *p_is_signed, uint64_t *p_val,
                      ABT_bool *p_overflow)
     /* clang-format off */
-__CPROVER_requires(vf_len < 1000000)
-__CPROVER_requires(__CPROVER_is_fresh(str, vf_len + 1) && str[vf_len] == 0)
+ATOI_IMPL_REQUIRES
 __CPROVER_requires(__CPROVER_pointer_equals(vf_str0, str))
-__CPROVER_requires(__CPROVER_is_fresh(p_is_signed, sizeof(ABT_bool)))
-__CPROVER_requires(__CPROVER_is_fresh(p_val, sizeof(uint64_t)))
-__CPROVER_requires(__CPROVER_is_fresh(p_overflow, sizeof(ABT_bool)))
 __CPROVER_assigns(*p_is_signed, *p_val, *p_overflow)
-__CPROVER_ensures(__CPROVER_return_value == ABT_SUCCESS ||
-                  __CPROVER_return_value == ABT_ERR_INV_ARG)
-__CPROVER_ensures(__CPROVER_return_value == ABT_SUCCESS ==>
-                  ((*p_overflow == ABT_TRUE || *p_overflow == ABT_FALSE) &&
-                   (*p_is_signed == ABT_TRUE || *p_is_signed == ABT_FALSE)))
-/* saturation, never wrap-around */
-__CPROVER_ensures((__CPROVER_return_value == ABT_SUCCESS &&
-                   *p_overflow == ABT_TRUE) ==> *p_val == UINT64_MAX)
-/* outputs are written iff the parse succeeded */
-__CPROVER_ensures(__CPROVER_return_value != ABT_SUCCESS ==>
-                  (*p_val == __CPROVER_old(*p_val) &&
-                   *p_overflow == __CPROVER_old(*p_overflow) &&
-                   *p_is_signed == __CPROVER_old(*p_is_signed)))
-/* a string that starts with a digit always parses */
-__CPROVER_ensures(('0' <= __CPROVER_old(str[0]) && __CPROVER_old(str[0]) <= '9')
-                  ==> __CPROVER_return_value == ABT_SUCCESS)
-/* the empty string never parses */
-__CPROVER_ensures(__CPROVER_old(str[0]) == 0 ==>
-                  __CPROVER_return_value == ABT_ERR_INV_ARG)
+ATOI_IMPL_ENSURES
     /* clang-format on */
     ;
 
